@@ -298,3 +298,97 @@ func tail(s string) string {
 }
 
 var _ = os.Stderr
+
+// ImportPair builds two files, dep/dep.proto and imp/imp.proto (imp imports dep; different Go
+// packages under goBase), and runs the plugin on both. imp uses dep's enum and message as singular,
+// repeated, optional and oneof fields, and declares a local enum with the SAME name as the imported
+// one. Returns generated file name -> content.
+func ImportPair(pluginPath, goBase string) (map[string]string, error) {
+	lbl, rep := descriptorpb.FieldDescriptorProto_LABEL_OPTIONAL, descriptorpb.FieldDescriptorProto_LABEL_REPEATED
+	tEnum, tMsg, tI32 := descriptorpb.FieldDescriptorProto_TYPE_ENUM, descriptorpb.FieldDescriptorProto_TYPE_MESSAGE, descriptorpb.FieldDescriptorProto_TYPE_INT32
+	level := func(name string) *descriptorpb.EnumDescriptorProto {
+		return &descriptorpb.EnumDescriptorProto{Name: s(name), Value: []*descriptorpb.EnumValueDescriptorProto{
+			{Name: s(name + "_LOW"), Number: i32(0)}, {Name: s(name + "_HIGH"), Number: i32(1)}}}
+	}
+	dep := &descriptorpb.FileDescriptorProto{Name: s("dep/dep.proto"), Package: s("dep"), Syntax: s("proto3"),
+		Dependency: []string{"pico.proto"},
+		Options:    &descriptorpb.FileOptions{GoPackage: s(goBase + "/dep")},
+		EnumType: []*descriptorpb.EnumDescriptorProto{level("Level"),
+			// two names for one number (allow_alias): String() must still compile and name the value
+			{Name: s("Al"), Options: &descriptorpb.EnumOptions{AllowAlias: proto.Bool(true)}, Value: []*descriptorpb.EnumValueDescriptorProto{
+				{Name: s("AL_ZERO"), Number: i32(0)}, {Name: s("AL_ONE"), Number: i32(1)}, {Name: s("AL_UNO"), Number: i32(1)}}}},
+		MessageType: []*descriptorpb.DescriptorProto{{Name: s("Ext"), Field: []*descriptorpb.FieldDescriptorProto{
+			{Name: s("v"), Number: i32(1), Label: &lbl, Type: &tI32, JsonName: s("v")},
+			{Name: s("l"), Number: i32(2), Label: &lbl, Type: &tEnum, TypeName: s(".dep.Level"), JsonName: s("l")}}}},
+	}
+	localLevel := &descriptorpb.EnumDescriptorProto{Name: s("Level"), Value: []*descriptorpb.EnumValueDescriptorProto{
+		{Name: s("LOCAL_NONE"), Number: i32(0)}, {Name: s("LOCAL_SOME"), Number: i32(5)}}}
+	user := &descriptorpb.DescriptorProto{Name: s("User"),
+		OneofDecl: []*descriptorpb.OneofDescriptorProto{{Name: s("o")}, {Name: s("_opt")}},
+		Field: []*descriptorpb.FieldDescriptorProto{
+			{Name: s("lvl"), Number: i32(1), Label: &lbl, Type: &tEnum, TypeName: s(".dep.Level"), JsonName: s("lvl")},
+			{Name: s("lvls"), Number: i32(2), Label: &rep, Type: &tEnum, TypeName: s(".dep.Level"), JsonName: s("lvls")},
+			{Name: s("ext"), Number: i32(3), Label: &lbl, Type: &tMsg, TypeName: s(".dep.Ext"), JsonName: s("ext")},
+			{Name: s("exts"), Number: i32(4), Label: &rep, Type: &tMsg, TypeName: s(".dep.Ext"), JsonName: s("exts")},
+			{Name: s("ol"), Number: i32(5), Label: &lbl, Type: &tEnum, TypeName: s(".dep.Level"), OneofIndex: i32(0), JsonName: s("ol")},
+			{Name: s("oe"), Number: i32(6), Label: &lbl, Type: &tMsg, TypeName: s(".dep.Ext"), OneofIndex: i32(0), JsonName: s("oe")},
+			{Name: s("mine"), Number: i32(7), Label: &lbl, Type: &tEnum, TypeName: s(".imp.Level"), JsonName: s("mine")},
+			{Name: s("opt"), Number: i32(8), Label: &lbl, Type: &tMsg, TypeName: s(".dep.Ext"), OneofIndex: i32(1), Proto3Optional: proto.Bool(true), JsonName: s("opt")},
+		}}
+	imp := &descriptorpb.FileDescriptorProto{Name: s("imp/imp.proto"), Package: s("imp"), Syntax: s("proto3"),
+		Dependency:  []string{"pico.proto", "dep/dep.proto"},
+		Options:     &descriptorpb.FileOptions{GoPackage: s(goBase + "/imp")},
+		EnumType:    []*descriptorpb.EnumDescriptorProto{localLevel},
+		MessageType: []*descriptorpb.DescriptorProto{user},
+	}
+	descFile := protodesc.ToFileDescriptorProto(descriptorpb.File_google_protobuf_descriptor_proto)
+	req := &pluginpb.CodeGeneratorRequest{
+		FileToGenerate:  []string{"dep/dep.proto", "imp/imp.proto"},
+		Parameter:       s("paths=source_relative"),
+		ProtoFile:       []*descriptorpb.FileDescriptorProto{descFile, PicoFile(), dep, imp},
+		CompilerVersion: &pluginpb.Version{Major: i32(3), Minor: i32(21), Patch: i32(12)},
+	}
+	in, err := proto.Marshal(req)
+	if err != nil {
+		return nil, err
+	}
+	cmd := exec.Command(pluginPath)
+	cmd.Stdin = bytes.NewReader(in)
+	var out, errb bytes.Buffer
+	cmd.Stdout = &out
+	cmd.Stderr = &errb
+	if err := cmd.Run(); err != nil {
+		return nil, fmt.Errorf("plugin failed: %v: %s", err, tail(errb.String()))
+	}
+	var resp pluginpb.CodeGeneratorResponse
+	if err := proto.Unmarshal(out.Bytes(), &resp); err != nil {
+		return nil, err
+	}
+	if resp.GetError() != "" {
+		return nil, fmt.Errorf("plugin error: %s", resp.GetError())
+	}
+	res := map[string]string{}
+	for _, gf := range resp.File {
+		res[gf.GetName()] = gf.GetContent()
+	}
+	return res, nil
+}
+
+// ImportAssertions: compile-time checks (package imp) that the fields of imp.User referring to dep's
+// declarations have dep's types — not a same-named local one.
+const ImportAssertions = `package imp
+
+import dep "%s/dep"
+
+var (
+	_ dep.Level   = (&User{}).Lvl
+	_ []dep.Level = (&User{}).Lvls
+	_ *dep.Ext    = (&User{}).Ext
+	_ []*dep.Ext  = (&User{}).Exts
+	_ dep.Level   = (&User_Ol{}).Ol
+	_ *dep.Ext    = (&User_Oe{}).Oe
+	_ Level       = (&User{}).Mine
+	_ *dep.Ext    = (&User{}).Opt
+	_             = dep.Al_AL_UNO.String()
+)
+`
